@@ -447,7 +447,7 @@ fn literal(rng: &mut Rng) -> String {
 
 pub fn c18_text(pool: &PhrasePool, rng: &mut Rng) -> String {
     let p = |rng: &mut Rng| phrase(pool, rng);
-    match rng.below(16) {
+    match rng.below(22) {
         0 | 1 => p(rng),
         2 => format!("{} * {}", p(rng), literal(rng)),
         3 => format!("{} * {}", literal(rng), p(rng)),
@@ -465,7 +465,13 @@ pub fn c18_text(pool: &PhrasePool, rng: &mut Rng) -> String {
         12 => rng.pick(&["1 + 2", "3N / 10kg", "3dl to m^3", "1m + 1s", "12 km / 4 s", "2^10", "10%"]).to_string(),
         13 => format!("({}) / ({})", p(rng), p(rng)),
         14 => format!("{} to km", p(rng)),
-        _ => format!("({}) {} ({}) zzz qqq ({})", p(rng), literal(rng), p(rng), p(rng)),
+        15 => format!("({}) {} ({}) zzz qqq ({})", p(rng), literal(rng), p(rng), p(rng)),
+        16 => format!("({})({})", p(rng), p(rng)),
+        17 => format!("({} + {})({})({})", p(rng), literal(rng), p(rng), literal(rng)),
+        18 => format!("({})(1m + 1s)({})", p(rng), p(rng)),
+        19 => format!("({} / 0)({} * {})", p(rng), p(rng), literal(rng)),
+        20 => format!("{} + {}", p(rng), p(rng)),
+        _ => format!("({}) ({})", p(rng), p(rng)),
     }
 }
 
@@ -548,7 +554,26 @@ pub fn c19_query(pool: &PhrasePool, rng: &mut Rng) -> String {
         }
     };
     let unit = |rng: &mut Rng| -> &'static str { *rng.pick(&["m", "km", "s", "kg", "N", "J", "W", "ft", "mi", "l", "h", "min", "btu", "Pa", "g", "m/s", "m^2", "km/h", "kg*m", "m/s^2"]) };
-    match rng.below(20) {
+    let plural_unit = |rng: &mut Rng| -> &'static str { *rng.pick(&["ton", "acre", "btu", "decade", "century", "millenium", "cable", "link", "perch", "rood"]) };
+    let small = |rng: &mut Rng| -> String {
+        match rng.below(9) {
+            0 => rng.range(0, 99).to_string(),
+            1 => format!("{} + {}", rng.range(0, 99), rng.range(0, 99)),
+            2 => "1m + 1s".to_string(),
+            3 => format!("{} / 0", rng.range(1, 9)),
+            4 => format!("{}{}", rng.range(1, 99), *rng.pick(&["m", "km", "s", "kg", "ton", "acre"])),
+            5 => phrase(pool, rng),
+            6 => format!("{}m + {}km", rng.range(1, 9), rng.range(1, 9)),
+            7 => format!("{} * {}", rng.range(1, 99), rng.range(1, 99)),
+            _ => format!("1 / {}", rng.range(2, 13)),
+        }
+    };
+    match rng.below(26) {
+        20 | 21 => format!("{} {}", *rng.pick(&["1", "0.5", "0.25", "0.125", "0.2", "2", "1.0", "10", "0.1", "1.5", "0.01", "3"]), plural_unit(rng)),
+        22 => format!("{} {} to {}", *rng.pick(&["1", "10", "100", "5", "0.5"]), plural_unit(rng), plural_unit(rng)),
+        23 => format!("({})({})", small(rng), small(rng)),
+        24 => format!("({})({})({})", small(rng), small(rng), small(rng)),
+        25 => format!("({}) ({})", small(rng), small(rng)),
         0 => int(rng),
         1 => dec(rng),
         2 => format!("{} / {}", int(rng), rng.range(1, 999)),
